@@ -154,7 +154,11 @@ class SE:
         """python == on references: identity, except OuterPin.__eq__ (structural; read from the heap at hand)."""
         c = self.ctx; h = st.heap
         both = And(c.cls(a) == c.C['OuterPin'], c.cls(b) == c.C['OuterPin'])
-        return Or(a == b, And(both, h['_instance'][a] == h['_instance'][b], h['_inner_pin'][a] == h['_inner_pin'][b]))
+        res = Or(a == b, And(both, h['_instance'][a] == h['_instance'][b], h['_inner_pin'][a] == h['_inner_pin'][b]))
+        if getattr(self.spec, 'value_equality', False):
+            # strings / enum members / numbers stored as data: == is an (uninterpreted) equivalence that contains identity
+            res = Or(res, And(c.cls(a) == c.C['Foreign'], c.cls(b) == c.C['Foreign'], self.spec.veq(a, b)))
+        return res
 
     def emem(self, st, M):
         """==-membership array of a set with identity members M:  E[y] <=> exists z in M. z == y   (skolemised through w)"""
@@ -389,6 +393,8 @@ class SE:
                 x = Const('xq_se', c.Ref)
                 Ea, Eb = self.emem(st, a[1]), self.emem(st, b[1])
                 t = ForAll([x], Ea[x] == Eb[x], patterns=[Ea[x], Eb[x]])
+            elif a[0] == 'type' and b[0] == 'type':
+                t = (c.cls(a[1]) == c.cls(b[1]))
             elif a[0] == 'opaque' or b[0] == 'opaque':
                 t = c.fresh('opq', BoolSort())
             elif a[0] == 'ref' and b[0] in ('int', 'str', 'bool') or b[0] == 'ref' and a[0] in ('int', 'str', 'bool'):
@@ -520,7 +526,14 @@ class SE:
             return cont(st, self.none())
         if k == 'str':
             return cont(st, ('str', '?'))
+        if k == 'obj':
+            fi = self.ct.find_any(recv[1], name)
+            if fi is None: raise Unsupported('method %s of %s' % (name, recv[1]))
+            return self.call_fn(st, fi, ([] if fi.kind == 'static' else [recv]) + args, cont, kw)
         if k != 'ref': raise Unsupported('method %s on %s' % (name, k))
+        if name in ('startswith', 'endswith', 'split', 'lower', 'upper', 'format'):
+            # string methods on a data value (names are opaque values): uninterpreted, deterministic in the receiver
+            return cont(st, self.spec.string_method(self, st, recv, name, args))
         handled = []
         for cl in IR_CLASSES:
             m = self.ct.find(cl, name, 'method')
@@ -619,7 +632,13 @@ class SE:
         if name == 'index':
             x = args[0]
             present = self.list_contains_eq(st, l, x[1]) if x[0] == 'ref' else BoolVal(False)
-            return self.branch(st, present, lambda s: cont(s, I(c.fresh('idx', IntSort()))), lambda s: self.exit(s, 'ValueError'))
+            def found(s):
+                if x[0] == 'ref' and getattr(c, '_positions', False):
+                    # list.index finds the first ==-equal element; for identity-compared elements of a duplicate-free list that is idx(l, x)
+                    s.pc.append(c.cnt(l, x[1]) >= 1)
+                    return cont(s, I(c.idx(l, x[1])))
+                return cont(s, I(c.fresh('idx', IntSort())))
+            return self.branch(st, present, found, lambda s: self.exit(s, 'ValueError'))
         if name == 'copy':
             return cont(st, ('list', l, None))
         raise Unsupported('list.%s' % name)
